@@ -481,11 +481,14 @@ pub fn macro_case() -> BoxedStrategy<MacroCase> {
     (
         prop::option::weighted(0.9, cfg_strategy(4)),
         prop::bool::weighted(0.3),
-        (prop_oneof![3 => Just(0usize), 2 => 1usize..6], prop_oneof![3 => Just(0u8), 1 => 1u8..4]),
+        (prop_oneof![3 => Just(0usize), 2 => 1usize..6], prop_oneof![3 => Just(0u8), 1 => 1u8..4], prop_oneof![9 => Just(0u8), 1 => 1u8..4]),
         prop::collection::vec(inv, 1..40),
     )
-        .prop_map(|(cfg, second_set, (set_after, spurious_weak), invocations)| MacroCase {
-            cfg,
+        .prop_map(|(cfg, second_set, (set_after, spurious_weak, reenter), invocations)| MacroCase {
+            cfg: cfg.map(|mut c| {
+                c.reenter = reenter;
+                c
+            }),
             second_set,
             set_after,
             spurious_weak,
@@ -610,6 +613,7 @@ pub fn race_child_main() -> i32 {
                 container: None,
                 handler: false,
                 handler_panic_at: None,
+                reenter: 0,
             })))
         })
         .collect();
